@@ -199,6 +199,7 @@ class ParserEngine(ParserCore, CanParse):
         self.set_left_recursion_guard(key)
 
         self.states.new()
+        depth = len(self.states.state_stack)
         try:
             self.next_token(ri)
 
@@ -218,6 +219,11 @@ class ParserEngine(ParserCore, CanParse):
             self.memoize(key, e)
             raise
         finally:
+            # note: the scopes opened inside the rule (options, optionals,
+            #   closures) undo their state for FailedParse only: a
+            #   FailedSemantics leaves them behind, and the caller would
+            #   then pop this rule's states, cuts included, as its own
+            del self.states.state_stack[depth:]
             self.states.undo()
 
     def func_call(self, ri: RuleInfo) -> Any:
